@@ -189,4 +189,87 @@ example : WF Ex.g ∧ Covers Ex.g [2, 0, 1] := by
   have : i = 0 ∨ i = 1 ∨ i = 2 := by simp [Ex.g] at hi; omega
   rcases this with rfl | rfl | rfl <;> decide
 
+/-! ### alias chains (`resolveAliasedTarget`), any length — added in the continuation round -/
+
+/-- whatever `resolveAliasedTarget` returns is a target of the graph -/
+theorem resolveFrom_isTarget (g : BuildGraph) : ∀ (fuel i : Nat) (t : Node),
+    g.resolveFrom fuel i = some t → t.isTarget = true ∧ t ∈ g.nodes := by
+  intro fuel
+  induction fuel with
+  | zero => intro i t h; simp [BuildGraph.resolveFrom] at h
+  | succ f ih =>
+    intro i t h
+    simp only [BuildGraph.resolveFrom] at h
+    split at h
+    · simp at h
+    · rename_i n hn
+      split at h
+      · rename_i ht
+        have : n = t := by simpa using h
+        subst this
+        exact ⟨ht, List.mem_of_getElem? hn⟩
+      · split at h
+        · simp at h
+        · exact ih _ _ h
+
+/-- a target resolves to itself -/
+theorem resolve_target (g : BuildGraph) (i : Nat) (n : Node) (hn : g.nodes[i]? = some n) (ht : n.isTarget = true) :
+    g.resolve i = some n := by
+  simp [BuildGraph.resolve, BuildGraph.resolveFrom, hn, ht]
+
+/-- one link of a chain: an alias resolves to whatever the node it points to resolves to (so a chain of any
+    length ends in the same target as its tail — an alias of an alias is not a dead end) -/
+theorem resolveFrom_alias_step (g : BuildGraph) (fuel i d : Nat) (n : Node) (rest : List Nat)
+    (hn : g.nodes[i]? = some n) (ha : n.isTarget = false) (hd : preds g.edges i = d :: rest) :
+    g.resolveFrom (fuel + 1) i = g.resolveFrom fuel d := by
+  simp [BuildGraph.resolveFrom, hn, ha, hd]
+
+/-- more fuel never changes an answer already found -/
+theorem resolveFrom_mono (g : BuildGraph) : ∀ (fuel i : Nat) (t : Node),
+    g.resolveFrom fuel i = some t → g.resolveFrom (fuel + 1) i = some t := by
+  intro fuel
+  induction fuel with
+  | zero => intro i t h; simp [BuildGraph.resolveFrom] at h
+  | succ f ih =>
+    intro i t h
+    rw [BuildGraph.resolveFrom] at h ⊢
+    split at h
+    · simp at h
+    · rename_i n hn
+      split at h
+      · rename_i ht; simp [ht, h]
+      · rename_i ht
+        split at h
+        · simp at h
+        · rename_i d rest hd
+          simp only [ht, hd]
+          exact ih _ _ h
+
+/-- The filters reach through alias chains of every length: an alias whose chain ends in a target that the
+    type / tag / exclude-tag filters reject is never a starting point of the selection. -/
+theorem alias_of_rejected_not_root (g : BuildGraph) (s : Selector) (i : Nat) (n t : Node)
+    (hn : g.nodes[i]? = some n) (ha : n.isTarget = false) (hr : g.resolve i = some t)
+    (hx : (typeOK s.typ t && tagsOK s.tags t.tags && !excluded s.excludeTags t.tags) = false) :
+    g.selMatchesAt s i = false := by
+  simp only [BuildGraph.selMatchesAt, hn, ha, hr]
+  simp [hx]
+
+/-- … and likewise for the platform filter -/
+theorem alias_of_incompatible_not_root (g : BuildGraph) (h : Host) (i : Nat) (n t : Node)
+    (hn : g.nodes[i]? = some n) (ha : n.isTarget = false) (hr : g.resolve i = some t)
+    (hx : platformOK h t = false) : g.selPlatAt h i = false := by
+  simp [BuildGraph.selPlatAt, hn, ha, hr, hx]
+
+/-! two-hop chain: `lib` (tag `slow`) ← `al` ← `al2`, `app`; `--exclude-tag=slow //...` selects `app` only -/
+namespace ExAlias2
+def g : BuildGraph :=
+  ⟨[⟨Ex.lbl [108], true, [ExAlias.slow], [], false⟩, ⟨Ex.lbl [97, 108], false, [], [], false⟩,
+    ⟨Ex.lbl [97, 50], false, [], [], false⟩, ⟨Ex.lbl [97, 112], true, [], [], false⟩],
+   [(0, 1), (1, 2)]⟩
+end ExAlias2
+
+example : ExAlias2.g.resolve 2 = some ⟨Ex.lbl [108], true, [ExAlias.slow], [], false⟩ := by decide
+theorem alias_chain_filtered_witness :
+    selectForBuild ExAlias2.g ExAlias.sel Ex.linux [0, 1, 2, 3] = .ok [3] 1 := by decide
+
 end Grog.C12
